@@ -10,4 +10,4 @@ func init() {
 		Notes: []string{"successful LoadFromDisk only (error-path leaks are fault-sequence behaviour outside C07's quantifier); restored instances are covered by the C05 jobs with user-managed memory"}})
 }
 
-func c07ConcJobs(tier string) []Job { return nil }
+func c07ConcJobs(tier string) []Job { return smrJobs("C07")(tier) }
